@@ -154,6 +154,9 @@ type c03Config struct {
 	// migration: the object declares a migration from DaemonSet "old" whose selector (app=agent) also matches the
 	// ExtendedDaemonSet's own pods (same template labels, the usual case); the old pods are owned by that DaemonSet
 	migration bool
+	// cordoned: every node carries node.kubernetes.io/unschedulable:NoSchedule (a node-condition taint every daemon pod
+	// tolerates): the nodes stay targeted
+	cordoned bool
 }
 
 func c03Configs() []c03Config {
@@ -163,6 +166,7 @@ func c03Configs() []c03Config {
 			out = append(out, c03Config{mu: mu, mpsf: mf})
 			if mf == "0" && (mu == "1" || mu == "50%") {
 				out = append(out, c03Config{mu: mu, mpsf: mf, migration: true})
+				out = append(out, c03Config{mu: mu, mpsf: mf, cordoned: true})
 			}
 			if strings.HasSuffix(mu, "%") && mf == "0" {
 				// the stored status may describe a larger or an empty cluster (nodes left / first sync)
@@ -249,7 +253,11 @@ func c03TwinOne(t *testing.T, run *h.Run, seq []int, cfg c03Config) {
 		podName := map[string]int{}
 		for i, c := range seq {
 			node := fmt.Sprintf("n%d", i+1)
-			objs = append(objs, w.MkNode(node, nil))
+			if cfg.cordoned {
+				objs = append(objs, w.MkNode(node, nil, corev1.Taint{Key: "node.kubernetes.io/unschedulable", Effect: corev1.TaintEffectNoSchedule}))
+			} else {
+				objs = append(objs, w.MkNode(node, nil))
+			}
 			if p := c03Pod(c, "ns", rs.Name, "foo", node, hash, now); p != nil {
 				if cfg.migration {
 					p.Labels["app"] = "agent"
@@ -290,7 +298,7 @@ func c03TwinOne(t *testing.T, run *h.Run, seq []int, cfg c03Config) {
 		mf := resolveStr(cfg.mpsf, len(seq))
 		if sig, msg := c03Oracle(seq, deleted, mu, mf); sig != "" {
 			run.Violate(h.Violation{Signature: sig, Monitor: "C03/twin", Message: msg, Rank: int64(len(seq)),
-				Replay: map[string]interface{}{"level": "reconcile", "classes": c03Names(seq), "maxUnavailable": cfg.mu, "maxPodSchedulerFailure": cfg.mpsf, "stored_status_desired_offset": cfg.stale, "migration_overlapping_selector": cfg.migration, "deleted": deleted}})
+				Replay: map[string]interface{}{"level": "reconcile", "classes": c03Names(seq), "maxUnavailable": cfg.mu, "maxPodSchedulerFailure": cfg.mpsf, "stored_status_desired_offset": cfg.stale, "migration_overlapping_selector": cfg.migration, "nodes_cordoned": cfg.cordoned, "deleted": deleted}})
 		}
 		if nd > 0 {
 			run.Nontrivial(fmt.Sprintf("twin:n=%d del=%d mu=%s", len(seq), nd, cfg.mu))
